@@ -387,11 +387,54 @@ fn grammar_docs(tier: &str) -> Vec<String> {
     docs
 }
 
-fn stressors() -> Vec<(String, String)> {
-    let deep = format!("{}{}", "<a>".repeat(10_000), "</a>".repeat(10_000));
+pub fn stressors() -> Vec<(String, String)> {
+    let depth = 100_000;
+    let chain = format!("{}{}", "<a>".repeat(depth), "</a>".repeat(depth));
+    let wrap = |inner: &str| format!("<graphml><key id=\"weight\" for=\"edge\" attr.name=\"weight\"/><graph edgedefault=\"directed\"><node id=\"a\"/><node id=\"b\"/>{inner}</graph></graphml>");
     let long_attr = format!("<graphml><graph edgedefault=\"directed\"><node id=\"{}\"/></graph></graphml>", "x".repeat(1 << 20));
     let many = format!("<graphml><graph edgedefault=\"undirected\">{}</graph></graphml>", (0..5000).map(|i| format!("<node id=\"n{i}\"/>")).collect::<String>());
-    vec![("stress:deep".into(), deep), ("stress:long_attr".into(), long_attr), ("stress:many_nodes".into(), many), ("stress:empty".into(), String::new()), ("stress:nul".into(), "\0\0\0".into()), ("stress:bom".into(), "\u{feff}<graphml/>".into())]
+    vec![
+        ("stress:deep_top".into(), chain.clone()),
+        ("stress:deep_in_graph".into(), wrap(&chain)),
+        ("stress:deep_in_node".into(), wrap(&format!("<node id=\"c\">{chain}</node>"))),
+        ("stress:deep_in_edge".into(), wrap(&format!("<edge source=\"a\" target=\"b\">{chain}</edge>"))),
+        ("stress:deep_in_weight_data".into(), wrap(&format!("<edge source=\"a\" target=\"b\"><data key=\"weight\">{chain}</data></edge>"))),
+        ("stress:deep_in_other_data".into(), wrap(&format!("<edge source=\"a\" target=\"b\"><data key=\"other\">{chain}</data></edge>"))),
+        ("stress:deep_in_key".into(), format!("<graphml><key id=\"weight\" for=\"edge\" attr.name=\"weight\">{chain}</key><graph edgedefault=\"directed\"/></graphml>")),
+        ("stress:deep_graphs".into(), format!("<graphml>{}{}</graphml>", "<graph edgedefault=\"directed\">".repeat(20_000), "</graph>".repeat(20_000))),
+        ("stress:long_weight_text".into(), wrap(&format!("<edge source=\"a\" target=\"b\"><data key=\"weight\">{}</data></edge>", "1".repeat(1 << 20)))),
+        ("stress:long_attr".into(), long_attr),
+        ("stress:many_nodes".into(), many),
+        ("stress:empty".into(), String::new()),
+        ("stress:nul".into(), "\0\0\0".into()),
+        ("stress:bom".into(), "\u{feff}<graphml/>".into()),
+    ]
+}
+
+/// child-process entry: one stressor document, so that a stack overflow / abort of the reader kills
+/// only the child and is attributed to the document (exit 0 = fine, 3 = the oracle found a violation)
+pub fn one(label: &str) -> i32 {
+    let rec = Recorder::new("C19", &[]);
+    let mut c = Counters::default();
+    match stressors().into_iter().find(|s| s.0 == label) {
+        None => 2,
+        Some((l, doc)) => {
+            // the reader is called on a 2 MiB stack, the default of a spawned thread
+            let h = std::thread::Builder::new().stack_size(2 << 20).spawn(move || {
+                let mut c2 = Counters::default();
+                let rec2 = Recorder::new("C19", &[]);
+                check_doc(&doc, &l, SPEC_MENU[0], &rec2, &mut c2);
+                rec2.has_any()
+            });
+            let bad = h.map(|h| h.join().unwrap_or(true)).unwrap_or(true);
+            let _ = (&rec, &mut c);
+            if bad {
+                3
+            } else {
+                0
+            }
+        }
+    }
 }
 
 const SPEC_MENU: [usize; 4] = [48 + 0, 0 + 36 + 8 + 0, 95, 48 + 24 + 12 + 2]; // see spec_from_index: directed strict; undirected multi loops; permissive drop; mixed
@@ -443,11 +486,25 @@ pub fn run(tier: &str, rec: &Recorder) -> RunOutput {
                 check_doc(doc, &format!("d:{bname}:none"), sp, rec, &mut c);
             }
         }
+        let exe = std::env::current_exe().expect("current_exe");
         for (label, doc) in stressors() {
-            wd.enter(&label);
-            check_doc(&doc, &label, SPEC_MENU[0], rec, &mut c);
-            wd.leave();
             c.inc("stressors");
+            match std::process::Command::new(&exe).args(["c19one", &label]).output() {
+                Err(e) => eprintln!("MACHINERY-ERROR: cannot spawn the stressor child: {e}"),
+                Ok(o) => match o.status.code() {
+                    Some(0) => {}
+                    Some(3) => {
+                        // the oracle found something and the reader did not crash: record the details in-process
+                        wd.enter(&label);
+                        check_doc(&doc, &label, SPEC_MENU[0], rec, &mut c);
+                        wd.leave();
+                    }
+                    other => {
+                        let err = String::from_utf8_lossy(&o.stderr);
+                        rec.record(Violation::new("no_stack_overflow_or_abort", "read_graphml_string", label.clone(), format!("the reader killed the process on stressor document {label} ({} bytes): exit status {other:?} / {:?}; stderr: {}", doc.len(), o.status, err.lines().last().unwrap_or(""))));
+                    }
+                },
+            }
         }
         total.lock().unwrap().merge(&c);
     }
